@@ -610,6 +610,9 @@ def dry_runs():
     yield 'C2_poll_units', dict(k=1, ready=False)
 
 
+PROBES = ['expect_core', 'transports', 'lifecycle']      # representation probes (harness/probes.py) this harness depends on
+
+
 MANIFEST_ENTRY = {
     'level_text': 'Bounded symbolic verification on a virtual integer clock, all times unbounded integers: '
                   '(A) the overall deadline arithmetic of the real expect_loop against any transport obeying the '
